@@ -50,8 +50,8 @@ namespace rkcommon {
      private:
       // declaration before taskImpl: ensure initialization before task finishes
       std::atomic<bool> jobFinished{false};
-      detail::AsyncTaskImpl<std::function<void()>> taskImpl;
       T retValue;
+      detail::AsyncTaskImpl<std::function<void()>> taskImpl;
     };
 
   }  // namespace tasking
